@@ -21,6 +21,7 @@ def parse(run: Run, fd: FuncDef, strict: bool = True) -> C.FuncAST:
     fa = _ast_cache.get(key)
     if fa is None:
         fa = C.parse_function(fi, fd)
+        _strip_inert(fa)
         _ast_cache[key] = fa
         if len(_ast_cache) > 4000:
             _ast_cache.clear()
@@ -29,6 +30,55 @@ def parse(run: Run, fd: FuncDef, strict: bool = True) -> C.FuncAST:
         raise AnalysisError("unparsed-construct", f"{fa.loc(o)}: {o.text[:100]}")
     run.functions[f"{fd.file}::{fd.qual}"] = f"L{fd.line}-{fd.end_line}"
     return fa
+
+
+def _inert_expr(e: Optional[C.Node]) -> bool:
+    """An expression whose evaluation has no effect and cannot throw: a literal, a name, or a cast of one to void."""
+    if e is None or isinstance(e, (C.Lit, C.Id)):
+        return True
+    if isinstance(e, C.Cast):
+        return _inert_expr(e.e)
+    if isinstance(e, C.Unary) and e.op in ("+", "-", "!", "~"):
+        return _inert_expr(e.e)
+    return False
+
+
+def _strip_inert(fa: C.FuncAST) -> None:
+    """Front-end normalisation (like the alpha-normalisation of locals): statements without any effect are dropped from every block
+    before the rules look at the function, so that no rule can depend on their presence or position --
+      * empty statements and expression statements that only evaluate a literal / a name (`(void)x;`, `static_cast<void>(0);`)
+      * declarations of locals that are initialised from a literal (or not at all) and never mentioned again in the function.
+    Both are semantics preserving; anything else is left alone."""
+    mentioned: Dict[str, int] = {}
+    for n in fa.body.walk():
+        if isinstance(n, C.Id):
+            mentioned[n.name] = mentioned.get(n.name, 0) + 1
+        elif isinstance(n, C.Lambda):
+            for nm in re.findall(r"[A-Za-z_]\w*", n.captures if isinstance(n.captures, str) else ""):
+                mentioned[nm] = mentioned.get(nm, 0) + 1
+
+    def inert(st: C.Node) -> bool:
+        if isinstance(st, C.Empty):
+            return True
+        if isinstance(st, C.ExprStmt):
+            return _inert_expr(st.e) and not isinstance(st.e, C.Id)
+        if isinstance(st, C.Decl):
+            if not st.decls:
+                return False
+            for d in st.decls:
+                if d.bindings or not d.name or d.ref or mentioned.get(d.name, 0):
+                    return False
+                if not (d.init is None or isinstance(d.init, C.Lit)):
+                    return False
+                ty = st.type if isinstance(st.type, str) else getattr(st.type, "text", "")
+                if not re.fullmatch(r"(const\s+|unsigned\s+|std::)*(int|bool|long|size_t|char|double|float|auto|std::size_t|uint\d+_t|int\d+_t)(\s+const)?", (ty or "").strip()):
+                    return False
+            return True
+        return False
+
+    for n in list(fa.body.walk()):
+        if isinstance(n, C.Block) and any(inert(x) for x in n.stmts):
+            n.stmts = [x for x in n.stmts if not inert(x)]
 
 
 def fn(run: Run, rel: str, name: str, **kw) -> C.FuncAST:
